@@ -124,7 +124,7 @@ def gen(ctx):
         if r.random() < 0.5:
             c['fillfunc'] = r.choice(['idx', 'dbl', 'mod', 'half', 'sq'])
         else:
-            c['fill'] = r.choice([None, 0, 1, 23, 2.5])
+            c['fill'] = r.choice([None, 0, 1, 23, 2.5, -0.0, -0.0])      # -0.0: the sign bit must survive
         cases.append(c)
     # unsupported element types
     for u in ['bool', 'str', 'object', 'datetime', 'struct', 'boollist', 'strlist', 'dict', 'none',
